@@ -285,6 +285,24 @@ def generate(rng, tier, corpus_only=False):
         for f, m in zip(facs, ms):
             prod = pmul(prod, ppow(f, m))
         cases.append("ufac 0 %s | %d %s" % (dense(prod), c, " ".join("%s %d" % (dense(f), m) for f, m in zip(facs, ms))))
+    # reducible polynomials whose CONSTANT term dominates all other coefficients (the coefficient bound that decides how
+    # far the modular factors are lifted depends on it): (x-a)(x+a+1), x^4+4k^4 = (x^2+2kx+2k^2)(x^2-2kx+2k^2), ...
+    for _ in range(int(14 * n)):
+        k = rng.random()
+        if k < 0.4:
+            a = rng.choice([100, 101, 999, 5000, 10**5, 10**6 + 3, rng.randint(50, 10**7)])
+            facs = [[-a, 1], [a + 1, 1]]
+        elif k < 0.75:
+            kk = rng.choice([5, 7, 10, 12, 50, 300, rng.randint(4, 2000)])
+            facs = [[2 * kk * kk, 2 * kk, 1], [2 * kk * kk, -2 * kk, 1]]
+        else:
+            a = rng.randint(100, 10**5); b = rng.randint(100, 10**5)
+            facs = [[-a, 1], [b, 1, 1]]
+        c = rng.choice([1, 1, -1, 2])
+        prod = [c]
+        for f in facs:
+            prod = pmul(prod, f)
+        cases.append("ufac 0 %s | %d %s" % (dense(prod), c, " ".join("%s 1" % dense(f) for f in facs)))
     return cases
 
 
